@@ -6,6 +6,7 @@ mod observe;
 mod rng;
 mod run;
 mod seams;
+mod refwalk;
 mod shape;
 mod tape;
 mod world;
